@@ -40,10 +40,14 @@ B = dict(use_if=False, use_alias=False, use_dyn_names=False, use_ws_body=False, 
 B2 = dict(B, comps=("a", "b"), fixed_comps=("c",), use_for=False, fill_names=("x",), slot_flags=("",))
 
 
+# providers only: two keys, nested / shadowing provides across a component boundary, consumers - no slots, no loops
+B3 = dict(B, comps=("a",), fixed_comps=("c",), provide_keys=("k", "m"), slot_names=(), fill_names=(), use_for=False)
+
+
 def bounds(tier):
     if tier == "thorough":
-        return {"parts": [("mixed", B, 4, 0), ("two_comps", B2, 4, 0)], "growth_max_size": 3, "payloads": 3}
-    return {"parts": [("mixed", B, 3, 0), ("two_comps", B2, 4, 3)], "growth_max_size": 2, "payloads": 3}
+        return {"parts": [("mixed", B, 4, 0), ("two_comps", B2, 4, 0), ("providers", B3, 5, 0)], "growth_max_size": 3, "payloads": 3}
+    return {"parts": [("mixed", B, 3, 0), ("two_comps", B2, 4, 3), ("providers", B3, 4, 0)], "growth_max_size": 2, "payloads": 3}
 
 
 class Sentinel:
